@@ -1,7 +1,7 @@
 (* C08 -- session lifecycle follows the documented state machine; CLOSED is final. *)
 From Coq Require Import ZArith List.
 From Coq.Strings Require Import Byte.
-From SV Require Import Base.Bytes Base.Py Msg.Types Sess.Model Sess.Drain Sess.Wire Sess.Lifecycle.
+From SV Require Import Gen.Sharing Base.Bytes Base.Py Msg.Types Sess.Model Sess.Drain Sess.Wire Sess.Lifecycle.
 Import ListNotations.
 
 Theorem C08_closed_is_final :
@@ -55,6 +55,13 @@ Theorem C08_strict_reading_refuted :
     ~ documented (s_role s) (s_state s) c o (s_state s') /\ ~ (exists k, o = OOther (Crash k)).
 Proof. exact strict_lifecycle_refuted. Qed.
 
+(* The theorems above are about functions and values; that _session.py (everything a session mutates is reached from the session object) keeps no state
+   between calls and shares none between objects is read off the source by tools/audit.py on every run
+   (Gen/Sharing.v): no memoisation, no module- or class-level container that is written, no mutable default, no
+   attribute written behind a dataclass, no parameter stored without a copy. *)
+Theorem C08_audit_no_state_between_calls : (hidden_state_session = [])%list.
+Proof. exact eq_refl. Qed.
+
 Print Assumptions C08_closed_is_final.
 Print Assumptions C08_closed_forever.
 Print Assumptions C08_every_step_documented.
@@ -63,3 +70,4 @@ Print Assumptions C08_binding_gate.
 Print Assumptions C08_unbind_closes.
 Print Assumptions C08_protocol_error_closes.
 Print Assumptions C08_strict_reading_refuted.
+Print Assumptions C08_audit_no_state_between_calls.
